@@ -15,36 +15,158 @@ namespace PsVerif
 /-- real core: `√b + t ≤ √a` for `t ≥ 0` by squaring twice -/
 theorem sqrt_add_le_iff (a b t : ℝ) (ha : 0 ≤ a) (hb : 0 ≤ b) (ht : 0 ≤ t) :
     Real.sqrt b + t ≤ Real.sqrt a ↔ (0 ≤ a - b - t ^ 2 ∧ 4 * t ^ 2 * b ≤ (a - b - t ^ 2) ^ 2) := by
-  sorry
+  have hx := Real.sqrt_nonneg a
+  have hy := Real.sqrt_nonneg b
+  have hxx : Real.sqrt a ^ 2 = a := Real.sq_sqrt ha
+  have hyy : Real.sqrt b ^ 2 = b := Real.sq_sqrt hb
+  generalize Real.sqrt a = x at *
+  generalize Real.sqrt b = y at *
+  subst hxx hyy
+  have hty : 0 ≤ 2 * t * y := by positivity
+  constructor
+  · intro h
+    have h2 : (y + t) ^ 2 ≤ x ^ 2 := pow_le_pow_left₀ (by positivity) h 2
+    have h3 : 2 * t * y ≤ x ^ 2 - y ^ 2 - t ^ 2 := by nlinarith
+    refine ⟨le_trans hty h3, ?_⟩
+    have h4 : (2 * t * y) ^ 2 ≤ (x ^ 2 - y ^ 2 - t ^ 2) ^ 2 := pow_le_pow_left₀ hty h3 2
+    nlinarith
+  · rintro ⟨hu, h⟩
+    have h4 : (2 * t * y) ^ 2 ≤ (x ^ 2 - y ^ 2 - t ^ 2) ^ 2 := by nlinarith
+    have h3 : 2 * t * y ≤ x ^ 2 - y ^ 2 - t ^ 2 := le_of_sq_le_sq h4 hu
+    have h2 : (y + t) ^ 2 ≤ x ^ 2 := by nlinarith
+    exact le_of_sq_le_sq h2 hx
+
+/-- real core, other sign: `√b ≤ √a + s` for `s ≥ 0` -/
+theorem sqrt_le_add_iff (a b s : ℝ) (ha : 0 ≤ a) (hb : 0 ≤ b) (hs : 0 ≤ s) :
+    Real.sqrt b ≤ Real.sqrt a + s ↔
+      (b - a - s ^ 2 ≤ 0 ∨ (b - a - s ^ 2) ^ 2 ≤ 4 * s ^ 2 * a) := by
+  have hx := Real.sqrt_nonneg a
+  have hy := Real.sqrt_nonneg b
+  have hxx : Real.sqrt a ^ 2 = a := Real.sq_sqrt ha
+  have hyy : Real.sqrt b ^ 2 = b := Real.sq_sqrt hb
+  generalize Real.sqrt a = x at *
+  generalize Real.sqrt b = y at *
+  subst hxx hyy
+  have hsx : 0 ≤ 2 * s * x := by positivity
+  have key : y ≤ x + s ↔ y ^ 2 - x ^ 2 - s ^ 2 ≤ 2 * s * x := by
+    constructor
+    · intro h
+      have h2 : y ^ 2 ≤ (x + s) ^ 2 := pow_le_pow_left₀ hy h 2
+      nlinarith
+    · intro h
+      have h2 : y ^ 2 ≤ (x + s) ^ 2 := by nlinarith
+      exact le_of_sq_le_sq h2 (by positivity)
+  rw [key]
+  constructor
+  · intro h
+    by_cases hv : y ^ 2 - x ^ 2 - s ^ 2 ≤ 0
+    · exact Or.inl hv
+    · right
+      have hv' : 0 ≤ y ^ 2 - x ^ 2 - s ^ 2 := le_of_lt (not_le.mp hv)
+      have h4 : (y ^ 2 - x ^ 2 - s ^ 2) ^ 2 ≤ (2 * s * x) ^ 2 := pow_le_pow_left₀ hv' h 2
+      nlinarith
+  · rintro (hv | h)
+    · exact le_trans hv hsx
+    · have h4 : (y ^ 2 - x ^ 2 - s ^ 2) ^ 2 ≤ (2 * s * x) ^ 2 := by nlinarith
+      exact le_of_sq_le_sq h4 hsx
 
 /-- **`geSqrt` is exact**: for non-negative squared norms it decides the comparison of
 `√a − c` with `√b − d` over the reals. -/
 theorem geSqrt_iff (a c b d : ℚ) (ha : 0 ≤ a) (hb : 0 ≤ b) :
     geSqrt a c b d = true ↔ Real.sqrt (a : ℝ) - (c : ℝ) ≥ Real.sqrt (b : ℝ) - (d : ℝ) := by
-  sorry
+  have haR : (0 : ℝ) ≤ (a : ℝ) := by exact_mod_cast ha
+  have hbR : (0 : ℝ) ≤ (b : ℝ) := by exact_mod_cast hb
+  unfold geSqrt
+  by_cases ht : c - d ≥ 0
+  · simp only [ht, if_true, Bool.and_eq_true, decide_eq_true_eq, ge_iff_le]
+    have htR : (0 : ℝ) ≤ (c : ℝ) - (d : ℝ) := by exact_mod_cast ht
+    have h1 : Real.sqrt (b : ℝ) - (d : ℝ) ≤ Real.sqrt (a : ℝ) - (c : ℝ) ↔
+        Real.sqrt (b : ℝ) + ((c : ℝ) - (d : ℝ)) ≤ Real.sqrt (a : ℝ) := by
+      constructor <;> intro h <;> linarith
+    rw [h1, sqrt_add_le_iff _ _ _ haR hbR htR]
+    have e1 : (0 ≤ a - b - (c - d) * (c - d)) ↔
+        (0 : ℝ) ≤ (a : ℝ) - (b : ℝ) - ((c : ℝ) - (d : ℝ)) ^ 2 := by
+      rw [← Rat.cast_le (K := ℝ)]; push_cast; rw [sq]
+    have e2 : (4 * (c - d) * (c - d) * b ≤ (a - b - (c - d) * (c - d)) * (a - b - (c - d) * (c - d))) ↔
+        4 * ((c : ℝ) - (d : ℝ)) ^ 2 * (b : ℝ) ≤ ((a : ℝ) - (b : ℝ) - ((c : ℝ) - (d : ℝ)) ^ 2) ^ 2 := by
+      rw [← Rat.cast_le (K := ℝ)]; push_cast
+      constructor <;> intro h <;> nlinarith [h]
+    rw [e1, e2]
+  · simp only [ht, if_false, Bool.or_eq_true, decide_eq_true_eq, ge_iff_le]
+    have ht' : 0 ≤ -(c - d) := by
+      have := not_le.mp ht
+      linarith
+    have htR : (0 : ℝ) ≤ -((c : ℝ) - (d : ℝ)) := by exact_mod_cast ht'
+    have h1 : Real.sqrt (b : ℝ) - (d : ℝ) ≤ Real.sqrt (a : ℝ) - (c : ℝ) ↔
+        Real.sqrt (b : ℝ) ≤ Real.sqrt (a : ℝ) + (-((c : ℝ) - (d : ℝ))) := by
+      constructor <;> intro h <;> linarith
+    rw [h1, sqrt_le_add_iff _ _ _ haR hbR htR]
+    have e1 : (b - a - -(c - d) * -(c - d) ≤ 0) ↔
+        (b : ℝ) - (a : ℝ) - (-((c : ℝ) - (d : ℝ))) ^ 2 ≤ 0 := by
+      rw [← Rat.cast_le (K := ℝ)]; push_cast; rw [sq]
+    have e2 : ((b - a - -(c - d) * -(c - d)) * (b - a - -(c - d) * -(c - d)) ≤ 4 * -(c - d) * -(c - d) * a) ↔
+        ((b : ℝ) - (a : ℝ) - (-((c : ℝ) - (d : ℝ))) ^ 2) ^ 2 ≤ 4 * (-((c : ℝ) - (d : ℝ))) ^ 2 * (a : ℝ) := by
+      rw [← Rat.cast_le (K := ℝ)]; push_cast
+      constructor <;> intro h <;> nlinarith [h]
+    rw [e1, e2]
 
 /-- the real-valued score `√norm² − cost` of a candidate -/
 noncomputable def scoreR (x : Score) : ℝ := Real.sqrt (x.1 : ℝ) - (x.2 : ℝ)
 
 theorem scoreGe_iff (x y : Score) (hx : 0 ≤ x.1) (hy : 0 ≤ y.1) :
     scoreGe x y = true ↔ scoreR y ≤ scoreR x := by
-  sorry
+  unfold scoreGe scoreR
+  exact geSqrt_iff x.1 x.2 y.1 y.2 hx hy
 
 theorem scoreGe_order : GeOrderOn (fun x : Score => 0 ≤ x.1) scoreGe := by
-  sorry
+  constructor
+  · intro a b ha hb
+    rw [scoreGe_iff a b ha hb, scoreGe_iff b a hb ha]
+    exact le_total _ _
+  · intro a b c ha hb hc
+    rw [scoreGe_iff a b ha hb, scoreGe_iff b c hb hc, scoreGe_iff a c ha hc]
+    intro h1 h2
+    exact le_trans h2 h1
 
 /-- adding the same constant to both costs does not change the comparison -/
 theorem geSqrt_shift (a c b d t : ℚ) : geSqrt a (c + t) b (d + t) = geSqrt a c b d := by
-  sorry
+  unfold geSqrt
+  rw [show c + t - (d + t) = c - d by ring]
 
+set_option linter.unusedVariables false in -- `ha`, `hb` are not needed but kept in the statement
 /-- with equal costs the comparison is that of the squared norms -/
 theorem geSqrt_same_cost (a b c : ℚ) (ha : 0 ≤ a) (hb : 0 ≤ b) :
     geSqrt a c b c = decide (b ≤ a) := by
-  sorry
+  unfold geSqrt
+  rw [Bool.eq_iff_iff]
+  simp only [sub_self, ge_iff_le, le_refl, if_true, mul_zero, zero_mul, sub_zero,
+    Bool.and_eq_true, decide_eq_true_eq, sub_nonneg]
+  constructor
+  · intro h; exact h.1
+  · intro h; exact ⟨h, mul_self_nonneg _⟩
 
 /-- positive rescaling (norms by `s`, hence squared norms by `s²`, costs by `s`) -/
 theorem geSqrt_scale (a c b d s : ℚ) (hs : 0 < s) (ha : 0 ≤ a) (hb : 0 ≤ b) :
     geSqrt (s * s * a) (s * c) (s * s * b) (s * d) = geSqrt a c b d := by
-  sorry
+  have hsa : 0 ≤ s * s * a := by positivity
+  have hsb : 0 ≤ s * s * b := by positivity
+  have hsR : (0 : ℝ) < (s : ℝ) := by exact_mod_cast hs
+  have haR : (0 : ℝ) ≤ (a : ℝ) := by exact_mod_cast ha
+  have hbR : (0 : ℝ) ≤ (b : ℝ) := by exact_mod_cast hb
+  have hsq : ∀ z : ℝ, 0 ≤ z → Real.sqrt ((s : ℝ) * (s : ℝ) * z) = (s : ℝ) * Real.sqrt z := by
+    intro z hz
+    rw [Real.sqrt_mul' _ hz, Real.sqrt_mul_self hsR.le]
+  rw [Bool.eq_iff_iff, geSqrt_iff _ _ _ _ hsa hsb, geSqrt_iff _ _ _ _ ha hb]
+  push_cast
+  rw [hsq _ haR, hsq _ hbR]
+  constructor
+  · intro h
+    have : (s : ℝ) * (Real.sqrt (b : ℝ) - (d : ℝ)) ≤ (s : ℝ) * (Real.sqrt (a : ℝ) - (c : ℝ)) := by
+      linarith
+    exact le_of_mul_le_mul_left this hsR
+  · intro h
+    have : (s : ℝ) * (Real.sqrt (b : ℝ) - (d : ℝ)) ≤ (s : ℝ) * (Real.sqrt (a : ℝ) - (c : ℝ)) :=
+      mul_le_mul_of_nonneg_left h hsR.le
+    linarith
 
 end PsVerif
